@@ -1,13 +1,16 @@
 (* C05 - Stream writes.  Only statements, each closed by [exact] of a lemma
    proved in Proofs/StreamWriteProofs.v, with Print Assumptions beneath.
-   Model: Model/StreamWrite.v (one stream; [exec beh (init blk o sa pw cfg) ops] runs
+   Model: Model/StreamWrite.v (one stream; [exec beh (init blk o sa pw cfg ip) ops] runs
    the top-level operations [ops], the k-th callback executing [beh k]; the
    write(2)/writev(2) answers are [o], shutdown(2) answers [sa], [pw] says per
    loop iteration whether the descriptor polls writable, [blk] is
    UV_HANDLE_BLOCKING_WRITES, [cfg] says how the stream came to be: [None] = opened
    connected, [Some (tcp, cres, so)] = the script starts right after uv_tcp_connect /
    uv_pipe_connect with the connect still pending - connect(2) result [cres],
-   SO_ERROR answers [so]; every theorem quantifies over it).  [trace s] is chronological.  Request ids are
+   SO_ERROR answers [so]; [ip] = the pipe was initialised for IPC; every theorem
+   quantifies over them).  [nfd t id] = number of accepted sendmsg calls in t that
+   carried the descriptor of request id (events [EFd]); [EWrite2 id] marks a
+   uv_write2 call with a send_handle; [EFdFail id] a failed sendmsg that carried it.  [trace s] is chronological.  Request ids are
    the positions of the uv_write/uv_try_write calls in call order.
    [acc t id] = bytes of request id the OS accepted; [cb_ids t] = ids of the
    write callbacks in t; [chunks]/[expand]/[bytes_of] spell out the accepted
@@ -21,8 +24,8 @@ Local Open Scope N_scope.
    sequence of operations, callback behaviours and kernel answers; for each of
    them unsent = total - accepted. *)
 Theorem C05_queue_size_exact :
-  forall beh blk o sa pw cfg ops,
-  let s := exec beh (init blk o sa pw cfg) ops in
+  forall beh blk o sa pw cfg ip ops,
+  let s := exec beh (init blk o sa pw cfg ip) ops in
   wqs s = sum_rem (cq s ++ wq s) /\ pq s = [] /\
   Forall (fun r => req_size r = r_total r - r_off r /\ r_off r <= r_total r) (cq s ++ wq s).
 Proof. exact queue_size_exact. Qed.
@@ -40,8 +43,8 @@ Print Assumptions C05_queue_size_exact_everywhere.
    has had its callback or is still queued (never both, never neither); a
    refused uv_write never gets a callback. *)
 Theorem C05_cb_exactly_once_in_order :
-  forall beh blk o sa pw cfg ops,
-  let s := exec beh (init blk o sa pw cfg) ops in
+  forall beh blk o sa pw cfg ip ops,
+  let s := exec beh (init blk o sa pw cfg ip) ops in
   StronglySorted lt (cb_ids (trace s)) /\
   (forall id, In (ERet id 0%Z) (trace s) ->
      (In id (cb_ids (trace s)) /\ ~ In id (map r_id (cq s ++ wq s))) \/
@@ -53,8 +56,8 @@ Proof. exact cb_exactly_once_in_order. Qed.
 Print Assumptions C05_cb_exactly_once_in_order.
 
 Theorem C05_status_zero_only_if_all_accepted :
-  forall beh blk o sa pw cfg ops,
-  let s := exec beh (init blk o sa pw cfg) ops in
+  forall beh blk o sa pw cfg ip ops,
+  let s := exec beh (init blk o sa pw cfg ip) ops in
   forall id tot q, In (EWrite id tot) (trace s) -> In (ECb id 0%Z q) (trace s) ->
   acc (trace s) id = tot.
 Proof. exact status_zero_only_if_all_accepted. Qed.
@@ -64,8 +67,8 @@ Print Assumptions C05_status_zero_only_if_all_accepted.
    every request; the prefix is everything when the callback said 0, and what
    uv_try_write returned for a try_write. *)
 Theorem C05_bytes_in_order_once :
-  forall beh blk o sa pw cfg ops,
-  let s := exec beh (init blk o sa pw cfg) ops in
+  forall beh blk o sa pw cfg ip ops,
+  let s := exec beh (init blk o sa pw cfg ip) ops in
   expand (chunks (trace s)) =
     flat_map (fun id => bytes_of id 0 (acc (trace s) id)) (seq 0 (next_id s)) /\
   (forall id tot, In (EWrite id tot) (trace s) -> acc (trace s) id <= tot) /\
@@ -87,8 +90,8 @@ Proof. exact try_write_never_overtakes_inv. Qed.
 Print Assumptions C05_try_write_never_overtakes.
 
 Theorem C05_try_write_never_overtakes_reachable :
-  forall beh blk o sa pw cfg ops, Inv1 (exec beh (init blk o sa pw cfg) ops).
-Proof. intros. exact (proj1 (final_inv beh blk o sa pw cfg ops)). Qed.
+  forall beh blk o sa pw cfg ip ops, Inv1 (exec beh (init blk o sa pw cfg ip) ops).
+Proof. intros. exact (proj1 (final_inv beh blk o sa pw cfg ip ops)). Qed.
 Print Assumptions C05_try_write_never_overtakes_reachable.
 
 (* Shutdown (model of the code after the repair of uv__stream_io, which now
@@ -101,8 +104,8 @@ Print Assumptions C05_try_write_never_overtakes_reachable.
    C05_cb_exactly_once_in_order: every write accepted before uv_shutdown has had
    its callback when the shutdown callback runs. *)
 Theorem C05_shutdown_last :
-  forall beh blk o sa pw cfg ops,
-  let s := exec beh (init blk o sa pw cfg) ops in
+  forall beh blk o sa pw cfg ip ops,
+  let s := exec beh (init blk o sa pw cfg ip) ops in
   (forall l1 l2, trace s = l1 ++ EShut 0%Z :: l2 ->
      forall id c, In (ERet id c) l2 -> c = UV_EPIPE \/ c = UV_EBADF) /\
   (forall a l1 l2, trace s = l1 ++ ESysShut a :: l2 -> forall i off n, ~ In (EChunk i off n) l2) /\
@@ -114,12 +117,12 @@ Print Assumptions C05_shutdown_last.
 
 (* the callback-order clause on its own, and the input that refuted it before the repair *)
 Theorem C05_shutdown_cb_last :
-  forall beh blk o sa pw cfg ops, shutdown_cb_last (trace (exec beh (init blk o sa pw cfg) ops)).
+  forall beh blk o sa pw cfg ip ops, shutdown_cb_last (trace (exec beh (init blk o sa pw cfg ip) ops)).
 Proof. exact shutdown_cb_last_holds. Qed.
 Print Assumptions C05_shutdown_cb_last.
 
 Example C05_shutdown_last_former_witness :
-  trace (exec beh_refute (init false [] 0%Z [] None) [OWrite [1]; ORun; ORun]) =
+  trace (exec beh_refute (init false [] 0%Z [] None false) [OWrite [1]; ORun; ORun]) =
     [EWrite 0 1; EChunk 0 0 1; ERet 0 0; EQ 0; ECb 0 0 0; EWrite 1 2; EChunk 1 0 2; ERet 1 0;
      EShut 0; ECb 1 0 0; ESysShut 0; EShutCb 0; EQ 0; EQ 0].
 Proof. vm_compute. reflexivity. Qed.
@@ -127,8 +130,8 @@ Proof. vm_compute. reflexivity. Qed.
 (* A non-empty write queue, or a pending connect, on a stream that is not closing
    always has POLLOUT armed or its watcher in the pending queue. *)
 Theorem C05_progress :
-  forall beh blk o sa pw cfg ops,
-  let s := exec beh (init blk o sa pw cfg) ops in
+  forall beh blk o sa pw cfg ip ops,
+  let s := exec beh (init blk o sa pw cfg ip) ops in
   wq s <> [] \/ connecting s = true -> closing s = false -> armed s = true \/ fed s = true.
 Proof. exact progress. Qed.
 Print Assumptions C05_progress.
@@ -145,7 +148,7 @@ Print Assumptions C05_try_write_while_connecting.
 Theorem C05_write_while_connecting :
   forall s bufs, connecting s = true -> check_before_write s = None ->
   oracle (api_write s bufs) = oracle s /\ armed (api_write s bufs) = armed s /\
-  wq (api_write s bufs) = wq s ++ [mkReq (next_id s) (sumN bufs) bufs O 0 0%Z false].
+  wq (api_write s bufs) = wq s ++ [mkReq (next_id s) (sumN bufs) bufs O 0 0%Z false false].
 Proof. exact write_while_connecting. Qed.
 Print Assumptions C05_write_while_connecting.
 
@@ -158,7 +161,7 @@ Print Assumptions C05_write_while_connecting.
    Gap: that the wake-up persists until uv__drain on connected streams is checked
    by the correspondence monitor (settle rule) only. *)
 Theorem C05_shutdown_progress_refuted :
-  exists beh cfg ops, ~ shutdown_progress (exec beh (init false [] 0%Z [] cfg) ops).
+  exists beh cfg ops, ~ shutdown_progress (exec beh (init false [] 0%Z [] cfg false) ops).
 Proof. exact shutdown_progress_refuted. Qed.
 Print Assumptions C05_shutdown_progress_refuted.
 
@@ -172,21 +175,44 @@ Print Assumptions C05_shutdown_progress_partial.
 
 (* [Prog] holds in every state reached by [exec] *)
 Theorem C05_shutdown_progress_partial_reachable :
-  forall beh blk o sa pw cfg ops, Prog (exec beh (init blk o sa pw cfg) ops).
+  forall beh blk o sa pw cfg ip ops, Prog (exec beh (init blk o sa pw cfg ip) ops).
 Proof. intros. apply exec_prog, Prog_init. Qed.
 Print Assumptions C05_shutdown_progress_partial_reachable.
+
+(* uv_write2: over everything the OS accepted of one request the descriptor is attached
+   to exactly one sendmsg - the first accepted one - and to none after; requests without
+   a send_handle never attach one; failed attempts (EAGAIN, errors) that carried it all
+   precede the accepted one.  (With C05_bytes_in_order_once: a request with at least one
+   accepted chunk has nfd = 1 by the fourth clause, else 0.) *)
+Theorem C05_send_handle_once :
+  forall beh blk o sa pw cfg ip ops,
+  let t := trace (exec beh (init blk o sa pw cfg ip) ops) in
+  (forall id, (nfd t id <= 1)%nat) /\
+  (forall id, (0 < nfd t id)%nat -> In (EWrite2 id) t) /\
+  (forall id l1 l2, t = l1 ++ EFd id :: l2 -> forall off len, ~ In (EChunk id off len) l1) /\
+  (forall id l1 l2 off len, t = l1 ++ EChunk id off len :: l2 -> In (EWrite2 id) t -> nfd l1 id = 1%nat) /\
+  (forall id l1 l2, t = l1 ++ EFdFail id :: l2 -> nfd l1 id = O).
+Proof. exact send_handle_once. Qed.
+Print Assumptions C05_send_handle_once.
+
+Example C05_example_send_handle :
+  trace (exec (fun _ => []) (init false [AErr 11; AErr 4; AWrote 3; AErr 105; AWrote 1] 0%Z [] None true)
+              [OWrite2 [5; 5]; ORun; ORun; ORun; ORun]) =
+    [EWrite 0 10; EWrite2 0; EFdFail 0; ERet 0 0; EQ 10; EFd 0; EChunk 0 0 3; EQ 7; EQ 7;
+     EChunk 0 3 1; EQ 6; EChunk 0 4 6; ECb 0 0 0; EQ 0].
+Proof. vm_compute. reflexivity. Qed.
 
 (* The hypotheses are satisfiable / the statements are not vacuous: a run with a
    short write, EAGAIN, EINTR, a zero-length buffer, a queued request, a refused
    try_write and a shutdown. *)
 Example C05_example_trace :
-  let s := exec (fun _ => []) (init false [AWrote 2; AErr 11; AErr 4; AWrote 3] 0%Z [] None)
+  let s := exec (fun _ => []) (init false [AWrote 2; AErr 11; AErr 4; AWrote 3] 0%Z [] None false)
                 [OWrite [3; 0; 2]; OWrite [4]; OTry [1]; ORun; OShutdown; ORun; ORun] in
   trace s =
     [EWrite 0 5; EChunk 0 0 2; ERet 0 0; EQ 3; EWrite 1 4; ERet 1 0; EQ 7; ETry 2 1;
      ETryRet 2 UV_EAGAIN; EQ 7; EQ 7; EShut 0; EQ 7; EChunk 0 2 3; EChunk 1 0 4; ECb 0 0 0;
      ECb 1 0 0; ESysShut 0; EShutCb 0; EQ 0; EQ 0] /\
-  (exists r, In r (wq (exec (fun _ => []) (init false [AWrote 2] 0%Z [] None) [OWrite [3; 0; 2]])) /\ 0 < req_size r).
+  (exists r, In r (wq (exec (fun _ => []) (init false [AWrote 2] 0%Z [] None false) [OWrite [3; 0; 2]])) /\ 0 < req_size r).
 Proof.
   split. vm_compute. reflexivity.
   vm_compute. eexists. split. left. reflexivity. reflexivity.
@@ -196,11 +222,11 @@ Qed.
    shutdown are queued, the connect completes, then write callback, shutdown(2),
    shutdown callback; and a refused connect cancels what was queued *)
 Example C05_example_connecting :
-  trace (exec (fun _ => []) (init false [] 0%Z [] (Some (true, Some 115%positive, [115%Z; 0%Z])))
+  trace (exec (fun _ => []) (init false [] 0%Z [] (Some (true, Some 115%positive, [115%Z; 0%Z])) false)
               [OWrite [0]; OShutdown; ORun; ORun; ORun]) =
     [EWrite 0 0; ERet 0 0; EQ 0; EShut 0; EQ 0; EQ 0; EConnCb 0; EQ 0; EChunk 0 0 0; ECb 0 0 0;
      ESysShut 0; EShutCb 0; EQ 0] /\
-  trace (exec (fun _ => []) (init false [] 0%Z [] (Some (true, Some 111%positive, [])))
+  trace (exec (fun _ => []) (init false [] 0%Z [] (Some (true, Some 111%positive, [])) false)
               [OWrite [3]; OWrite [0]; ORun]) =
     [EWrite 0 3; ERet 0 0; EQ 3; EWrite 1 0; ERet 1 0; EQ 3; EConnCb (-111); ECb 0 UV_ECANCELED 0;
      ECb 1 UV_ECANCELED 0; EQ 0].
